@@ -48,6 +48,7 @@ fn rr(r: &ResolveResult) -> RR {
 
 #[derive(Default)]
 pub struct Local {
+    non_element_probes: u64,
     bound: u64,
     unbound: u64,
     unknown: u64,
@@ -478,6 +479,10 @@ fn check_with<R: NsRd>(mut r: R, input: &[u8], expand: bool, hist: &History, loc
                         return Err(format!("call {}: read_resolved_event returned {:?} for a non-element event", call - 1, res));
                     }
                 }
+                // declarations stop applying once their element has ended: also while the reader stands on
+                // the text, comment, ... (or Eof) that follows it
+                compare_scope(&r, &m, &format!("at {} (call {}), a non-element event", want.show(), call - 1), loc)?;
+                loc.non_element_probes += 1;
             }
         }
         // skip the rest of an enclosing element: after a child event the innermost open element, or -
@@ -806,6 +811,7 @@ fn run(ctx: &mut Ctx) {
 }
 
 fn flush(ctx: &mut Ctx, loc: &Local) {
+    ctx.add("scope_compared_at_non_element_events", loc.non_element_probes);
     ctx.add("probes.Bound", loc.bound);
     ctx.add("probes.Unbound", loc.unbound);
     ctx.add("probes.Unknown", loc.unknown);
